@@ -733,7 +733,9 @@ func (x *Exec) storeIndex(l *ast.IndexExpr, v *Val, st *State) {
 	bt := info.TypeOf(l.X)
 	switch bt.Underlying().(type) {
 	case *types.Map:
+		x.mapMut++
 		m := x.expr(l.X, st)
+		x.mapMut--
 		k := x.expr(l.Index, st)
 		x.mapWrite(st, m, bt, k, x.convertTo(v, bt.Underlying().(*types.Map).Elem()), l.Pos())
 	case *types.Slice:
